@@ -40,6 +40,14 @@ DECLARED = {
     "ivals": {"return_type_element": "int"},
 }
 FLOATS = ["0.0", "0.5", "1.0", "2.0", "30.0", "-1.0"]
+# opaque (but pure) user C++ supplied through metadata
+USER_FUNCS = {
+    "scale_it": {"metadata_type": "add_cpp_function", "name": "scale_it", "include_files": ["cmath"], "arguments": ["value", "factor"],
+                 "code": ["double tmp = value * factor;", "double result = tmp + 0.0;"], "return_type": "double"},
+    "pair_vec": {"metadata_type": "add_cpp_function", "name": "pair_vec", "include_files": ["vector"], "arguments": ["value"],
+                 "code": ["std::vector<double> result;", "result.push_back(value);", "if (value > 0) result.push_back(value * 2);"],
+                 "return_type": "double", "return_is_collection": True},
+}
 
 
 class QGen:
@@ -62,8 +70,14 @@ class QGen:
         key = (etype, method)
         if key not in self.md:
             d = {"metadata_type": "add_method_type_info", "type_string": etype, "method_name": method}
-            d.update(DECLARED[method])
+            if method == "subs":
+                d["return_type_element"] = etype
+            else:
+                d.update(DECLARED[method])
             self.md[key] = d
+
+    def use_func(self, name):
+        self.md[("fn", name)] = USER_FUNCS[name]
 
     def coll(self, evar="e", only=None):
         names = sorted(COLLECTIONS[self.b])
@@ -86,6 +100,25 @@ class QGen:
         if k < 0.55 or depth <= 0:
             self.shape.append("odbl")
             return f"{o}.{r.choice(DOUBLE_METHODS)}()", "double"
+        if r.random() < 0.12:
+            a, _ = self.obj_num(o, etype, depth - 1, want="double")
+            if r.random() < 0.6:
+                self.use_func("scale_it")
+                self.shape.append("userfn")
+                return f"scale_it({a}, {r.choice(FLOATS)})", "double"
+            self.use_func("pair_vec")
+            self.shape.append("userfn_coll")
+            return f"pair_vec({a}).{r.choice(['Count', 'Sum'])}()", "double"
+        if r.random() < 0.12 and not o.startswith("sub"):
+            self.declare(etype, "subs")
+            v = self.var("sub")
+            self.shape.append("osubs")
+            kk = r.random()
+            if kk < 0.4:
+                return f"{o}.subs().Count()", "int"
+            if kk < 0.8:
+                return f"{o}.subs().Select(lambda {v}: {v}.{r.choice(DOUBLE_METHODS)}()).{r.choice(['Sum', 'Max'])}()", "double"
+            return f"{o}.subs().Where(lambda {v}: {v}.pt() > {r.choice(FLOATS)}).Count()", "int"
         if k < 0.65:
             a, _ = self.obj_num(o, etype, depth - 1)
             self.shape.append("arith")
@@ -116,16 +149,19 @@ class QGen:
         a = self.var("a")
         return f"{o}.{m}().Aggregate(0.0, lambda {a}, {v}: {a} + {v})", "double"
 
-    def obj_bool(self, o, etype, depth):
+    def obj_bool(self, o, etype, depth, typed=False):
+        """typed=True: the func_adl front end must be able to see that this is a boolean (top-level Where step)"""
         r = self.r
         k = r.random()
+        if typed:
+            k = max(k, 0.15)
         if k < 0.15:
             self.declare(etype, "isGood")
             self.shape.append("obool")
             return f"{o}.isGood()"
         a, _ = self.obj_num(o, etype, max(0, depth - 1))
         cmp_ = f"{a} {r.choice(['>', '<', '>=', '<=', '!='])} {r.choice(FLOATS)}"
-        if k < 0.75 or depth <= 0:
+        if k < 0.75 or depth <= 0 or typed:
             self.shape.append("cmp")
             return cmp_
         b2 = self.obj_bool(o, etype, depth - 1)
@@ -255,7 +291,12 @@ class QGen:
         was = self.uncond
         self.uncond = False
         kk = r.random()
-        if kk < 0.4:
+        if r.random() < 0.2:
+            self.declare(et, "subs")
+            v2 = self.var("sub")
+            self.shape.append("col2d_subs")
+            txt = f"{s}.Select(lambda {v}: {v}.subs().Select(lambda {v2}: {v2}.{r.choice(DOUBLE_METHODS)}()))"
+        elif kk < 0.4:
             m = r.choice(["cvals", "ivals"])
             self.declare(et, m)
             self.shape.append("col2d_member")
@@ -308,11 +349,11 @@ class QGen:
             self.uncond = False
             v = self.var("o")
             if r.random() < 0.3:
-                steps.append(["Where", f"lambda {v}: {self.obj_bool(v, et, 1)}"])
+                steps.append(["Where", f"lambda {v}: {self.obj_bool(v, et, 1, typed=True)}"])
                 v = self.var("o")
                 self.shape.append("obj_where")
             if form == "per_object":
-                if r.random() < 0.3:
+                if r.random() < 0.04:
                     m = r.choice(["cvals", "ivals"])
                     self.declare(et, m)
                     self.shape.append("row_vec")
